@@ -10,8 +10,10 @@ import (
 	"context"
 	"fmt"
 	"math/rand"
+	"runtime"
 	"sort"
 	"strings"
+	"sync/atomic"
 	"testing"
 	"testing/synctest"
 	"time"
@@ -116,22 +118,58 @@ var timerSets = []timers{
 
 const resolveTimeout = 300500 * time.Millisecond
 
+type integ struct {
+	Kind string `json:"-"`
+	Name string `json:"name"` // kind/index-within-kind, as notify.Integration reports it
+	SR   bool   `json:"sr"`
+}
+
 type scenCfg struct {
 	T       timers
-	SR      []bool // send_resolved per integration of receiver r1
+	Integs  []integ // integrations of receiver r1 (initial configuration)
+	Alt     []integ // integrations after a reload that changes the receiver (nil: reloads keep it)
 	Inhibit bool
 }
 
-func (c scenCfg) yaml() string {
+func mkIntegs(kinds []string, srs []bool) []integ {
+	// receiver.BuildReceiverIntegrations lists webhooks before e-mails
+	var out []integ
+	for _, kind := range []string{"webhook", "email"} {
+		n := 0
+		for i, k := range kinds {
+			if k == kind {
+				out = append(out, integ{Kind: kind, Name: fmt.Sprintf("%s/%d", kind, n), SR: srs[i]})
+				n++
+			}
+		}
+	}
+	return out
+}
+
+func (c scenCfg) yaml(integs []integ) string {
 	var sb strings.Builder
-	fmt.Fprintf(&sb, "global:\n  resolve_timeout: %dms\n", resolveTimeout/time.Millisecond)
+	fmt.Fprintf(&sb, "global:\n  resolve_timeout: %dms\n  smtp_smarthost: 'localhost:25'\n  smtp_from: 'am@example.org'\n  smtp_require_tls: false\n", resolveTimeout/time.Millisecond)
 	fmt.Fprintf(&sb, "route:\n  receiver: r1\n  group_by: [g]\n  group_wait: %s\n  group_interval: %s\n  repeat_interval: %s\n", c.T.gw, c.T.gi, c.T.ri)
 	if c.Inhibit {
 		sb.WriteString("inhibit_rules:\n- source_matchers: ['sev=\"crit\"']\n  target_matchers: ['sev=\"warn\"']\n  equal: [g]\n")
 	}
-	sb.WriteString("receivers:\n- name: r1\n  webhook_configs:\n")
-	for i, sr := range c.SR {
-		fmt.Fprintf(&sb, "  - url: http://127.0.0.1:1/%d\n    send_resolved: %v\n", i, sr)
+	sb.WriteString("receivers:\n- name: r1\n")
+	for _, kind := range []string{"webhook", "email"} {
+		first := true
+		for i, it := range integs {
+			if it.Kind != kind {
+				continue
+			}
+			if first {
+				fmt.Fprintf(&sb, "  %s_configs:\n", kind)
+				first = false
+			}
+			if kind == "webhook" {
+				fmt.Fprintf(&sb, "  - url: http://127.0.0.1:1/%d\n    send_resolved: %v\n", i, it.SR)
+			} else {
+				fmt.Fprintf(&sb, "  - to: 'oncall%d@example.org'\n    send_resolved: %v\n", i, it.SR)
+			}
+		}
 	}
 	return sb.String()
 }
@@ -151,9 +189,18 @@ type envEvent struct {
 }
 
 func genScenario(rng *rand.Rand) (scenCfg, []envEvent, []inst.Window, time.Duration) {
-	cfg := scenCfg{T: timerSets[rng.Intn(len(timerSets))], SR: []bool{true, rng.Intn(3) > 0 == false}, Inhibit: rng.Intn(3) == 0}
-	if rng.Intn(4) == 0 {
-		cfg.SR = []bool{rng.Intn(2) == 0}
+	cfg := scenCfg{T: timerSets[rng.Intn(len(timerSets))], Inhibit: rng.Intn(3) == 0}
+	switch rng.Intn(6) {
+	case 0:
+		cfg.Integs = mkIntegs([]string{"webhook"}, []bool{rng.Intn(2) == 0})
+	case 1: // a reload adds a webhook in front of the e-mail integration
+		cfg.Integs = mkIntegs([]string{"email"}, []bool{true})
+		cfg.Alt = mkIntegs([]string{"webhook", "email"}, []bool{rng.Intn(2) == 0, true})
+	case 2: // a reload removes the first webhook
+		cfg.Integs = mkIntegs([]string{"webhook", "webhook"}, []bool{true, false})
+		cfg.Alt = mkIntegs([]string{"webhook"}, []bool{true})
+	default:
+		cfg.Integs = mkIntegs([]string{"webhook", "webhook"}, []bool{true, rng.Intn(3) == 0})
 	}
 	horizon := 3*cfg.T.ri + 4*cfg.T.gi + 2*time.Minute
 	if horizon > 5*time.Hour {
@@ -162,6 +209,7 @@ func genScenario(rng *rand.Rand) (scenCfg, []envEvent, []inst.Window, time.Durat
 	n := 6 + rng.Intn(14)
 	var evs []envEvent
 	nsil := 0
+	flap := rng.Intn(4) == 0 // a resolve / re-fire pair around a flush tick with a slow receiver
 	for k := 0; k < n; k++ {
 		// every environment event has its own millisecond signature: never at the same
 		// instant as another one, as a timer derived from another one, or as an alert end
@@ -205,14 +253,56 @@ func genScenario(rng *rand.Rand) (scenCfg, []envEvent, []inst.Window, time.Durat
 		}
 		evs = append(evs, e)
 	}
-	sort.SliceStable(evs, func(i, j int) bool { return evs[i].at < evs[j].at })
 	ws := []inst.Window{}
+	names := []string{}
+	for _, it := range append(append([]integ{}, cfg.Integs...), cfg.Alt...) {
+		names = append(names, it.Name)
+	}
 	for i := 0; i < rng.Intn(3); i++ {
 		from := time.Duration(rng.Int63n(int64(horizon/time.Second)))*time.Second + 750*time.Millisecond
 		dur := time.Duration(1+rng.Intn(int(cfg.T.gi/time.Second)*2+30)) * time.Second
-		kind := []string{"rec", "rec", "unrec", "hang"}[rng.Intn(4)]
-		ws = append(ws, inst.Window{Recv: "r1", Integ: rng.Intn(len(cfg.SR)), From: int64(from / time.Millisecond), To: int64((from + dur) / time.Millisecond), Kind: kind})
+		kind := []string{"rec", "rec", "unrec", "hang", "slow"}[rng.Intn(5)]
+		w := inst.Window{Recv: "r1", Integ: names[rng.Intn(len(names))], From: int64(from / time.Millisecond), To: int64((from + dur) / time.Millisecond), Kind: kind}
+		ws = append(ws, w)
+		if len(cfg.Integs) > 1 && rng.Intn(2) == 0 {
+			// a sibling in trouble at the same time: one fails for good while the other is retrying
+			other := cfg.Integs[0].Name
+			if other == w.Integ {
+				other = cfg.Integs[1].Name
+			}
+			k2 := map[string]string{"rec": "unrec", "unrec": "rec", "hang": "unrec", "slow": "unrec"}[kind]
+			ws = append(ws, inst.Window{Recv: "r1", Integ: other, From: w.From + 1000, To: w.To + 3000, Kind: k2})
+		}
 	}
+	if flap {
+		// A1 fires early; around the k-th flush tick of its group it resolves just before
+		// the tick and fires again just after it, while the resolved notification is still
+		// being delivered (slow receiver)
+		t0 := 2*time.Second + 499*time.Millisecond
+		evs = append(evs, envEvent{at: t0, kind: "post", a: "A1", mode: "fire"})
+		k := 1 + rng.Intn(3)
+		tick := t0 + cfg.T.gw + time.Duration(k)*cfg.T.gi
+		before := time.Duration(100+rng.Intn(400)) * time.Millisecond
+		after := time.Duration(100+rng.Intn(400)) * time.Millisecond
+		evs = append(evs, envEvent{at: tick - before, kind: "post", a: "A1", mode: "resolve"})
+		evs = append(evs, envEvent{at: tick + after, kind: "post", a: "A1", mode: "fire"})
+		for _, it := range cfg.Integs {
+			if it.SR {
+				ws = append(ws, inst.Window{Recv: "r1", Integ: it.Name, From: int64((tick - time.Second) / time.Millisecond), To: int64((tick + time.Second) / time.Millisecond), Kind: "slow"})
+			}
+		}
+		// keep other events on A1 and reloads away from the flap
+		keep := evs[:0]
+		for _, e := range evs {
+			near := e.at > tick-2*cfg.T.gi-time.Minute && e.at < tick+2*cfg.T.gi+time.Minute
+			isFlap := e.at == tick-before || e.at == tick+after || e.at == t0
+			if isFlap || !(e.at < tick+time.Minute && (e.a == "A1" || e.kind == "reload" || e.kind == "silence")) && !(near && e.kind == "reload") {
+				keep = append(keep, e)
+			}
+		}
+		evs = keep
+	}
+	sort.SliceStable(evs, func(i, j int) bool { return evs[i].at < evs[j].at })
 	return cfg, evs, ws, horizon
 }
 
@@ -260,9 +350,13 @@ func TestScenarios(t *testing.T) {
 		res.Cases++
 		synctest.Test(t, func(t *testing.T) {
 			lg := &inst.Log{}
+			var killed atomic.Bool
 			hook := func(name string, args ...any) {
 				switch name {
 				case "flush.begin":
+					if killed.Load() {
+						runtime.Goexit() // a group that survived the shutdown of its dispatcher: end it
+					}
 					as := args[2].(alert.AlertSlice)
 					obs := make([]inst.AlertObs, 0, len(as))
 					for _, a := range as {
@@ -283,16 +377,17 @@ func TestScenarios(t *testing.T) {
 			dispatch.VerifPoint.Store(&hook)
 			defer dispatch.VerifPoint.Store(nil)
 			in, err := inst.New(inst.Options{Name: "A", Retention: 120 * time.Hour, AlertGCInterval: 30 * time.Minute,
-				MaintenanceInterval: 30 * time.Second, Log: lg, Windows: windows})
+				MaintenanceInterval: 30 * time.Second, NflogGCInterval: time.Minute, Log: lg, Windows: windows})
 			if err != nil {
 				t.Fatal(err)
 			}
 			lg.Add(inst.Event{Ev: "cfg", Data: map[string]any{
 				"gw": int64(cfg.T.gw / time.Millisecond), "gi": int64(cfg.T.gi / time.Millisecond), "ri": int64(cfg.T.ri / time.Millisecond),
-				"sr": cfg.SR, "inhibit": cfg.Inhibit, "rt": int64(resolveTimeout / time.Millisecond), "windows": windows,
+				"integs": cfg.Integs, "inhibit": cfg.Inhibit, "rt": int64(resolveTimeout / time.Millisecond), "windows": windows,
 			}})
-			if err := in.Reload(cfg.yaml()); err != nil {
-				t.Fatalf("reload: %v\n%s", err, cfg.yaml())
+			cur := cfg.Integs
+			if err := in.Reload(cfg.yaml(cur)); err != nil {
+				t.Fatalf("reload: %v\n%s", err, cfg.yaml(cur))
 			}
 			synctest.Wait()
 			var silIDs []string
@@ -336,8 +431,15 @@ func TestScenarios(t *testing.T) {
 						lg.Add(inst.Event{Ev: "sil.expire", Data: map[string]any{"idx": e.sidx, "code": code}})
 					}
 				case "reload":
-					lg.Add(inst.Event{Ev: "reloading"})
-					if err := in.Reload(cfg.yaml()); err != nil {
+					if cfg.Alt != nil {
+						if len(cur) == len(cfg.Integs) {
+							cur = cfg.Alt
+						} else {
+							cur = cfg.Integs
+						}
+					}
+					lg.Add(inst.Event{Ev: "reloading", Data: map[string]any{"integs": cur}})
+					if err := in.Reload(cfg.yaml(cur)); err != nil {
 						t.Fatalf("reload: %v", err)
 					}
 					lg.Add(inst.Event{Ev: "reload"})
@@ -352,6 +454,12 @@ func TestScenarios(t *testing.T) {
 			snapshotGroups(in, lg)
 			lg.Add(inst.Event{Ev: "end"})
 			in.Stop()
+			synctest.Wait()
+			// nothing may happen after the shutdown: watch for a while, then end whatever survived
+			time.Sleep(2*cfg.T.gi + 15*time.Second)
+			synctest.Wait()
+			killed.Store(true)
+			time.Sleep(2*cfg.T.gi + 15*time.Second)
 			synctest.Wait()
 			for _, e := range lg.Ev {
 				e.Inst = fmt.Sprint(run)
@@ -417,6 +525,6 @@ func norm(e inst.Event, run int) map[string]any {
 	}
 	return map[string]any{
 		"run": run, "seq": e.Seq, "t": e.T, "ev": e.Ev, "gk": e.Gk, "ag": e.Ag, "integ": e.Integ, "alerts": e.Alerts,
-		"outcome": e.Outcome, "deadline": e.Deadline, "firing": e.Firing, "resolved": e.Resolved, "data": e.Data,
+		"outcome": e.Outcome, "deadline": e.Deadline, "st": e.Start, "firing": e.Firing, "resolved": e.Resolved, "data": e.Data,
 	}
 }
